@@ -125,6 +125,45 @@ class Gen:
             return self._has_append_array(mm['key'], seen) or self._has_append_array(mm['value'], seen)
         return any(self._has_append_array(f['type'], seen) for f in self.sch['structs'][t['id']]['fields'])
 
+    def toggle_one_optional(self, t, v):
+        """v with exactly one optional field (somewhere inside) switched between absent and present and
+        nothing else changed; None when v holds no optional field"""
+        import copy as _copy
+        paths = []
+
+        def walk(t, v, path, depth):
+            k = t['k']
+            if v is None or k == 'prim' or depth > 6:
+                return
+            if k == 'array':
+                for i, x in enumerate(v):
+                    walk(t['elem'], x, path + [i], depth + 1)
+            elif k == 'multimap':
+                mm = self.sch['multimaps'][t['id']]
+                for i, kv in enumerate(v):
+                    walk(mm['value'], kv[1], path + [i, 1], depth + 1)
+            else:
+                st = self.sch['structs'][t['id']]
+                if st['oneof']:
+                    if v[0] > 0:
+                        walk(st['fields'][v[0] - 1]['type'], v[1], path + [1], depth + 1)
+                else:
+                    for i, f in enumerate(st['fields']):
+                        if f['optional']:
+                            paths.append((path + [i], f['type']))
+                        if i < len(v):
+                            walk(f['type'], v[i], path + [i], depth + 1)
+        walk(t, v, [], 0)
+        if not paths:
+            return None
+        path, ft = self.rng.choice(paths)
+        nv = _copy.deepcopy(v)
+        cur = nv
+        for p in path[:-1]:
+            cur = cur[p]
+        cur[path[-1]] = None if cur[path[-1]] is not None else self.value(ft, 3)
+        return nv
+
     def mutate(self, t, v, depth=0):
         """a value close to v: most of it kept, some parts changed"""
         r = self.rng
@@ -208,7 +247,7 @@ def gen_opts(rng, tier_full=True, allow_zstd=True):
     return o
 
 
-def gen_history(sch, root, rng, nrec, big=False, tiny=False, detour=True):
+def gen_history(sch, root, rng, nrec, big=False, tiny=False, detour=True, copies=True):
     """ops: set/w with occasional f; values evolve by mutation"""
     g = Gen(sch, rng, big=big, tiny=tiny, max_depth=2 if tiny else 4)
     rid = [i for i, s in enumerate(sch['structs']) if s['name'] == root][0]
@@ -223,13 +262,15 @@ def gen_history(sch, root, rng, nrec, big=False, tiny=False, detour=True):
             c = rng.below(3)
             other = g.value(t) if c == 0 else g.mutate(t, prev if c == 1 else cur)
             ops.append({'op': 'set', 'v': other, 'freeze': rng.chance(1, 2)})
-        ops.append({'op': 'set', 'v': cur, 'freeze': rng.chance(1, 2)})
+        ops.append({'op': 'set', 'v': cur, 'freeze': rng.chance(1, 2), 'copy': bool(copies and rng.chance(1, 4) and not g._has_append_array(t))})
         ops.append({'op': 'w'})
         prev = cur
         if rng.chance(1, 6):
             ops.append({'op': 'f'})
         if rng.chance(1, 8):
             pass                      # identical record again
+        elif rng.chance(1, 6) and g.toggle_one_optional(t, cur) is not None:
+            cur = g.toggle_one_optional(t, cur)       # only the presence of one optional field changes
         elif rng.chance(1, 10) and not g._has_append_array(t):
             cur = g.value(t)
         else:
